@@ -224,35 +224,69 @@ def worker(batch, rec):
                     rec.violation("C05:power:raises", f"({u})**{fp!r} raised {type(e).__name__}: {e}", tag)
             # simplify / as_coeff_unit denote the same unit
             t = (u * v / w) if r.random() < 0.5 else (u * v)
-            before = (t.base_value, udim(t), float(t.base_offset))
-            try:
-                c, cu = t.as_coeff_unit()
-                if abs(c * cu.base_value - before[0]) > 1e-12 * abs(before[0]) or udim(cu) != before[1]:
-                    rec.violation("C05:as_coeff_unit:denotation", f"{t!r}.as_coeff_unit() -> ({c!r}, {cu!r} scale {cu.base_value!r}); product != {before[0]!r}", str(t))
-                else:
-                    rec.ok(("as_coeff_unit", str(t)))
-                fresh = Unit(t.expr, registry=t.registry)
-                before = (fresh.base_value, udim(fresh), float(fresh.base_offset))
-                s = fresh.simplify()
-                after = (s.base_value, udim(s), float(s.base_offset))
-                esc, edim = uexpr.evaluate(str(s.expr), resx)
-                if after != before:
-                    rec.violation("C05:simplify:changed-value", f"simplify() of {t!r}: (scale, dim, offset) {before} -> {after}", str(t))
-                elif edim != before[1] or abs(esc - before[0]) > 1e-9 * abs(before[0]):
-                    rec.violation("C05:simplify:expression-denotes-other-unit", f"simplify() of {t!r} prints {s.expr} which evaluates to scale {esc!r} dim {dims.show(edim)}; unit has {before[0]!r}", str(t))
-                else:
-                    c2, cu2 = s.as_coeff_unit()
-                    e2, d2 = uexpr.evaluate(str(cu2.expr), resx)
-                    if abs(c2 * cu2.base_value - before[0]) > 1e-9 * abs(before[0]) or abs(e2 - cu2.base_value) > 1e-9 * abs(e2) or d2 != before[1]:
-                        rec.violation("C05:as_coeff_unit:after-simplify", f"{s!r}.as_coeff_unit() -> ({c2!r}, {cu2!r}); unit scale {cu2.base_value!r} but its expression evaluates to {e2!r}", str(t))
+
+            def check_simplify(t, cls):
+                """cls = structural class of the unit handed to simplify(): '' (product of table units), ':second-call' (the
+                object simplify() already returned), ':coefficient-unit' (expression carries a numeric factor from the start)"""
+                before = (t.base_value, udim(t), float(t.base_offset))
+                try:
+                    c, cu = t.as_coeff_unit()
+                    if abs(c * cu.base_value - before[0]) > 1e-12 * abs(before[0]) or udim(cu) != before[1]:
+                        rec.violation("C05:as_coeff_unit:denotation" + cls, f"{t!r}.as_coeff_unit() -> ({c!r}, {cu!r} scale {cu.base_value!r}); product != {before[0]!r}", str(t))
                     else:
-                        rec.ok(("simplify", str(t)))
-                if hash(s) != hash(Unit(s.expr, registry=s.registry)):
-                    rec.violation("C05:hash:after-simplify", f"hash of simplified {s!r} differs from hash of a unit built from the same expression", str(t))
-            except uexpr.ParseError as e:
-                rec.note("simplify-printed-form-not-evaluable-by-reference")
-            except Exception as e:
-                rec.violation("C05:simplify:raises", f"simplify/as_coeff_unit of {t!r} raised {type(e).__name__}: {e}", str(t))
+                        rec.ok(("as_coeff_unit" + cls, str(t)))
+                    fresh = Unit(t.expr, base_value=t.base_value, dimensions=t.dimensions, registry=t.registry) if cls else Unit(t.expr, registry=t.registry)
+                    before = (fresh.base_value, udim(fresh), float(fresh.base_offset))
+                    e0, d0 = uexpr.evaluate(str(fresh.expr), resx)
+                    if d0 != before[1] or abs(e0 - before[0]) > 1e-9 * abs(before[0]):
+                        rec.note("unit-expression-and-scale-disagree-before-simplify" + cls)
+                        return None
+                    s = fresh.simplify()
+                    after = (s.base_value, udim(s), float(s.base_offset))
+                    esc, edim = uexpr.evaluate(str(s.expr), resx)
+                    if after != before:
+                        rec.violation("C05:simplify:changed-value" + cls, f"simplify() of {t!r}: (scale, dim, offset) {before} -> {after}", str(t))
+                    elif edim != before[1] or abs(esc - before[0]) > 1e-9 * abs(before[0]):
+                        rec.violation("C05:simplify:expression-denotes-other-unit" + cls, f"simplify() of {t!r} prints {s.expr} which evaluates to scale {esc!r} dim {dims.show(edim)}; unit has {before[0]!r}", str(t))
+                    else:
+                        c2, cu2 = s.as_coeff_unit()
+                        e2, d2 = uexpr.evaluate(str(cu2.expr), resx)
+                        if abs(c2 * cu2.base_value - before[0]) > 1e-9 * abs(before[0]) or abs(e2 - cu2.base_value) > 1e-9 * abs(e2) or d2 != before[1]:
+                            rec.violation("C05:as_coeff_unit:after-simplify" + cls, f"{s!r}.as_coeff_unit() -> ({c2!r}, {cu2!r}); unit scale {cu2.base_value!r} but its expression evaluates to {e2!r}", str(t))
+                        else:
+                            rec.ok(("simplify" + cls, str(t)))
+                            rec.count("simplify-checked" + (cls or ":plain"))
+                    if not cls and hash(s) != hash(Unit(s.expr, registry=s.registry)):
+                        rec.violation("C05:hash:after-simplify", f"hash of simplified {s!r} differs from hash of a unit built from the same expression", str(t))
+                    return s
+                except uexpr.ParseError as e:
+                    rec.note("simplify-printed-form-not-evaluable-by-reference")
+                except Exception as e:
+                    rec.violation("C05:simplify:raises" + cls, f"simplify/as_coeff_unit of {t!r} raised {type(e).__name__}: {e}", str(t))
+                return None
+
+            s1 = check_simplify(t, "")
+            if s1 is not None:
+                check_simplify(s1, ":second-call")                 # simplify() mutates and returns self: calling it again is a history
+                if k % 3 == 0:
+                    check_simplify(s1 * pick(custom), ":product-of-simplified")
+            if k % 2 == 0:
+                # units whose expression carries a numeric factor from the start: from a string, from a quantity, by arithmetic
+                coef = r.choice([2, 100, 1000, 2.5, 0.25, 3600, 12])
+                base = u if abs(math.log10(abs(u.base_value))) < 100 else v
+                try:
+                    route = k % 6
+                    if route == 0:
+                        cu_ = Unit(f"{coef}*({base.expr})", registry=base.registry)
+                    elif route == 2:
+                        cu_ = Unit(unyt.unyt_quantity(coef, base), registry=base.registry)
+                    else:
+                        cu_ = Unit(f"{coef}*({base.expr})", registry=base.registry) * v
+                except Exception as e:
+                    rec.note(f"coefficient-unit-not-constructible:{type(e).__name__}")
+                    cu_ = None
+                if cu_ is not None:
+                    check_simplify(cu_, ":coefficient-unit")
             if k < 2:
                 rec.sample({"u": str(u), "v": str(v), "w": str(w), "p": str(p), "q": str(q)})
     elif kind == "refusal":
